@@ -161,21 +161,25 @@ def sendAck (e : Ep) : Ep × OutSeg := sendSegment e [] fAck e.snd.sndNxt
 
 /-! ### Reno -/
 
+/-- `updateSlowStart`: the window grows by the packets acknowledged, up to `ssthresh` (where the
+congestion-avoidance count restarts); returns what is left for congestion avoidance -/
+def renoSlowStart (s : Snd) (packetsAcked : Nat) : Snd × Nat :=
+  if !s.ssInf && s.cwnd + packetsAcked ≥ s.ssthresh then
+    ({ s with cwnd := s.ssthresh, caAck := 0 }, packetsAcked - (s.ssthresh - s.cwnd))
+  else ({ s with cwnd := s.cwnd + packetsAcked }, 0)
+
+/-- `updateCongestionAvoidance` -/
+def renoCA (s : Snd) (packetsAcked : Nat) : Snd :=
+  let ca := s.caAck + packetsAcked
+  if s.cwnd > 0 && ca ≥ s.cwnd then { s with cwnd := s.cwnd + ca / s.cwnd, caAck := ca % (s.cwnd + ca / s.cwnd) }
+  else { s with caAck := ca }
+
+/-- `renoState.Update` -/
 def renoUpdate (s : Snd) (packetsAcked : Nat) : Snd :=
-  let inSS := s.ssInf || s.cwnd < s.ssthresh
-  let (s1, left) : Snd × Nat :=
-    if inSS then
-      let newcwnd := s.cwnd + packetsAcked
-      let (newcwnd, ca) := if !s.ssInf && newcwnd ≥ s.ssthresh then (s.ssthresh, 0) else (newcwnd, s.caAck)
-      ({ s with cwnd := newcwnd, caAck := ca }, packetsAcked - (newcwnd - s.cwnd))
-    else (s, packetsAcked)
-  if inSS && left == 0 then s1
-  else
-    let ca := s1.caAck + left
-    if s1.cwnd > 0 && ca ≥ s1.cwnd then
-      let c := s1.cwnd + ca / s1.cwnd
-      { s1 with cwnd := c, caAck := ca % c }
-    else { s1 with caAck := ca }
+  if s.ssInf || s.cwnd < s.ssthresh then
+    let r := renoSlowStart s packetsAcked
+    if r.2 == 0 then r.1 else renoCA r.1 r.2
+  else renoCA s packetsAcked
 
 def reduceSsthresh (s : Snd) : Snd :=
   let h := (if s.outstanding < 0 then 0 else s.outstanding.toNat) / 2
@@ -239,16 +243,18 @@ def sendDataLoop : Nat → Ep → Nat → List OutSeg → Ep × List OutSeg
     | .stop e' => (e', out)
     | .sent e' o => sendDataLoop fuel e' (i + 1) (out ++ [o])
 
+/-- enough iterations for the whole write list: every iteration either finishes an entry or sends at least
+one byte of one -/
+def sendFuel (s : Snd) : Nat := s.writeList.length + (s.writeList.map (·.data.length)).sum
+
 def sendData (e : Ep) : Ep × List OutSeg :=
-  let (e1, out) := sendDataLoop (e.snd.writeList.length * 2 + 70000) e e.snd.writeNext []
-  let s := e1.snd
-  let s := if !s.timerEnabled && s.sndUna != s.sndNxt then { s with timerEnabled := true } else s
-  ({ e1 with snd := s }, out)
+  let r := sendDataLoop (sendFuel e.snd + 1) e e.snd.writeNext []
+  ({ r.1 with snd := if !r.1.snd.timerEnabled && r.1.snd.sndUna != r.1.snd.sndNxt then { r.1.snd with timerEnabled := true } else r.1.snd }, r.2)
 
 def resendSegment (e : Ep) : Ep × List OutSeg :=
   match e.snd.writeList.head? with
   | none => (e, [])
-  | some seg => let (e1, o) := sendSegment e seg.data seg.flags seg.seq; (e1, [o])
+  | some seg => ((sendSegment e seg.data seg.flags seg.seq).1, [(sendSegment e seg.data seg.flags seg.seq).2])
 
 def enterFastRecovery (s : Snd) : Snd :=
   let cw := s.ssthresh + 3
@@ -305,8 +311,9 @@ def ackAdvance (s : Snd) (ack : Nat) : Snd :=
     else s1
   if s2.outstanding < 0 then { s2 with outstanding := 0 } else s2
 
-/-- `sender.handleRcvdSegment` (window already scaled) -/
-def sndHandleSegment (e : Ep) (seg : InSeg) (window : Nat) (ts : Model.Header.TCPOpts) : Ep × List OutSeg :=
+/-- `sender.handleRcvdSegment` up to (not including) the final `sendData`: timestamp echo, duplicate-ACK
+bookkeeping, window update, cumulative-ACK processing and the fast retransmission if one is due -/
+def sndPrepare (e : Ep) (seg : InSeg) (window : Nat) (ts : Model.Header.TCPOpts) : Ep × List OutSeg :=
   let e0 := updateRecentTimestamp e ts.tsVal e.snd.maxSentAck seg.seq
   let c := checkDuplicateAck e0.snd seg.ack seg.logicalLen window
   let s := { c.1 with sndWnd := window }
@@ -314,9 +321,11 @@ def sndHandleSegment (e : Ep) (seg : InSeg) (window : Nat) (ts : Model.Header.TC
     if inRange (subS seg.ack 1) s.sndUna s.sndNxt then
       { e0 with snd := ackAdvance s seg.ack, sndBufUsed := e0.sndBufUsed - sizeS s.sndUna seg.ack }
     else { e0 with snd := s }
-  let r1 := if c.2 then resendSegment e1 else (e1, [])
-  let r2 := sendData r1.1
-  (r2.1, r1.2 ++ r2.2)
+  if c.2 then resendSegment e1 else (e1, [])
+
+/-- `sender.handleRcvdSegment` (window already scaled) -/
+def sndHandleSegment (e : Ep) (seg : InSeg) (window : Nat) (ts : Model.Header.TCPOpts) : Ep × List OutSeg :=
+  ((sendData (sndPrepare e seg window ts).1).1, (sndPrepare e seg window ts).2 ++ (sendData (sndPrepare e seg window ts).1).2)
 
 /-- sender state after a retransmission timeout: recovery is abandoned, the window collapses to one
 segment, everything is to be sent again from the head of the write list -/
@@ -388,6 +397,14 @@ def insertPending (x : PSeg) : List PSeg → List PSeg
 
 def PSeg.logicalLen (s : PSeg) : Nat := s.data.length + (if has s.flags fFin then 1 else 0) + (if has s.flags fSyn then 1 else 0)
 
+/-- the parked segment lies wholly before `rcvNxt` (nothing new in it) -/
+def PSeg.beforeNxt (s : PSeg) (rcvNxt : Nat) : Bool :=
+  lt (addS s.seq (if s.data.length == 0 then M - 1 else s.data.length - 1)) rcvNxt
+
+def Ep.popPending (e : Ep) (s : PSeg) (rest : List PSeg) : Ep :=
+  { e with rcv := { e.rcv with pending := rest, pendingBufUsed := e.rcv.pendingBufUsed - s.logicalLen } }
+
+/-- after an in-order segment: consume what was parked and now fits -/
 def drainPending : Nat → Ep → List OutSeg → Ep × List OutSeg
   | 0, e, out => (e, out)
   | fuel + 1, e, out =>
@@ -395,62 +412,59 @@ def drainPending : Nat → Ep → List OutSeg → Ep × List OutSeg
     match e.rcv.pending with
     | [] => (e, out)
     | s :: rest =>
-      let segLen := s.data.length
-      let beforeNxt := lt (addS s.seq (if segLen == 0 then M - 1 else segLen - 1)) e.rcv.rcvNxt
-      if beforeNxt then
-        drainPending fuel { e with rcv := { e.rcv with pending := rest, pendingBufUsed := e.rcv.pendingBufUsed - s.logicalLen } } out
+      if s.beforeNxt e.rcv.rcvNxt then drainPending fuel (e.popPending s rest) out
       else
-        let (e1, ok, o) := consumeSegment e s.flags s.seq s.data
-        if !ok then (e, out)
-        else
-          let e2 := if e1.rcv.closed then e1 else
-            { e1 with rcv := { e1.rcv with pending := rest, pendingBufUsed := e1.rcv.pendingBufUsed - s.logicalLen } }
-          drainPending fuel e2 (out ++ o)
+        let r := consumeSegment e s.flags s.seq s.data
+        if !r.2.1 then (e, out)
+        else drainPending fuel (if r.1.rcv.closed then r.1 else r.1.popPending s rest) (out ++ r.2.2)
+
+/-- park a segment in the sequence-ordered pending list, if the budget allows -/
+def parkRcv (r : Rcv) (seg : InSeg) : Rcv :=
+  let ll := seg.data.length + (if has seg.flags fFin then 1 else 0) + (if has seg.flags fSyn then 1 else 0)
+  if r.pendingBufUsed < r.pendingBufSize then
+    { r with pendingBufUsed := r.pendingBufUsed + ll, pending := insertPending ⟨seg.seq, seg.flags, seg.data⟩ r.pending }
+  else r
+
+/-- an acceptable segment that cannot be consumed yet is parked and acknowledged (with SACK blocks if enabled) -/
+def parkSegment (e : Ep) (seg : InSeg) : Ep × List OutSeg :=
+  let a := sendAck { e with rcv := parkRcv e.rcv seg, sack := updateSack e.sack seg.seq (addS seg.seq seg.data.length) e.rcv.rcvNxt }
+  (a.1, [a.2])
 
 /-- `receiver.handleRcvdSegment` -/
 def rcvHandleSegment (e : Ep) (seg : InSeg) : Ep × List OutSeg :=
   if e.rcv.closed then (e, []) else
-  let segLen := seg.data.length
-  if !acceptable e.rcv seg.seq segLen then
-    let (e, o) := sendAck e; (e, [o])
+  if !acceptable e.rcv seg.seq seg.data.length then
+    let a := sendAck e
+    (a.1, [a.2])
   else
-    let (e1, ok, o) := consumeSegment e seg.flags seg.seq seg.data
-    if !ok then
-      if segLen > 0 || has seg.flags fFin then
-        let ll := seg.data.length + (if has seg.flags fFin then 1 else 0) + (if has seg.flags fSyn then 1 else 0)
-        let r := if e.rcv.pendingBufUsed < e.rcv.pendingBufSize then
-            { e.rcv with pendingBufUsed := e.rcv.pendingBufUsed + ll, pending := insertPending ⟨seg.seq, seg.flags, seg.data⟩ e.rcv.pending }
-          else e.rcv
-        let e := { e with rcv := r, sack := updateSack e.sack seg.seq (addS seg.seq segLen) e.rcv.rcvNxt }
-        let (e, o) := sendAck e
-        (e, [o])
-      else (e, [])
-    else drainPending (e1.rcv.pending.length + 1) e1 o
+    let r := consumeSegment e seg.flags seg.seq seg.data
+    if !r.2.1 then
+      if seg.data.length > 0 || has seg.flags fFin then parkSegment e seg else (e, [])
+    else drainPending (r.1.rcv.pending.length + 1) r.1 r.2.2
 
 /-! ### the connected endpoint's event handlers -/
 
 /-- the body of the `handleSegments` loop for one dequeued segment; the flag says the loop returned
 `ErrConnectionReset` -/
 def handleCore (e : Ep) (seg : InSeg) : Ep × List OutSeg × Bool :=
-  let popts := Model.Header.parseTCPOptions seg.opts
-  if has seg.flags fRst then
-    if acceptable e.rcv seg.seq 0 then (e, [], true) else (e, [], false)
+  if has seg.flags fRst then (e, [], acceptable e.rcv seg.seq 0)
   else if has seg.flags fAck then
-    if e.sendTSOk && !popts.ts then (e, [], false)
+    if e.sendTSOk && !(Model.Header.parseTCPOptions seg.opts).ts then (e, [], false)
     else
-      let window := seg.wnd <<< e.snd.sndWndScale
-      let (e, o1) := rcvHandleSegment e seg
-      let (e, o2) := sndHandleSegment e seg window popts
-      (e, o1 ++ o2, false)
+      let r := rcvHandleSegment e seg
+      let s := sndHandleSegment r.1 seg (seg.wnd <<< e.snd.sndWndScale) (Model.Header.parseTCPOptions seg.opts)
+      (s.1, r.2 ++ s.2, false)
   else (e, [], false)
 
 /-- the dequeue loop: stops at the first acceptable reset (what is left in the queue is never read) -/
 def handleBatch (e : Ep) : List InSeg → Ep × List OutSeg × Bool
   | [] => (e, [], false)
   | s :: rest =>
-    let (e, o, r) := handleCore e s
-    if r then (e, o, true)
-    else let (e', o', r') := handleBatch e rest; (e', o ++ o', r')
+    let c := handleCore e s
+    if c.2.2 then c
+    else
+      let r := handleBatch c.1 rest
+      (r.1, c.2.1 ++ r.2.1, r.2.2)
 
 /-- the main loop's exit test: both directions closed and everything acknowledged -/
 def closeIfDone (e : Ep) : Ep :=
@@ -468,17 +482,21 @@ def finishBatch (e : Ep) (out : List OutSeg) (reset : Bool) : Ep × List OutSeg 
 
 def maxSegmentsPerWake : Nat := 100
 
-/-- `handleSegments` on a queue of segments: at most `maxSegmentsPerWake` per wake-up -/
-def handleSegments (e : Ep) (segs : List InSeg) : Ep × List OutSeg :=
-  if e.done then (e, []) else
-  let (e1, out, reset) := handleBatch e (segs.take maxSegmentsPerWake)
-  let (e2, out2) := finishBatch e1 out reset
-  if h : segs.length ≤ maxSegmentsPerWake then (e2, out2)
-  else
-    let (e3, out3) := handleSegments e2 (segs.drop maxSegmentsPerWake)
-    (e3, out2 ++ out3)
-termination_by segs.length
-decreasing_by simp [maxSegmentsPerWake] at *; omega
+/-- the wake-ups needed to drain a queue of segments: at most `maxSegmentsPerWake` per wake-up, each followed
+by the cumulative ACK and the exit test (`fuel`: one wake-up per unit) -/
+def handleSegmentsLoop : Nat → Ep → List InSeg → Ep × List OutSeg
+  | 0, e, _ => (e, [])
+  | fuel + 1, e, segs =>
+    if e.done then (e, []) else
+    let b := handleBatch e (segs.take maxSegmentsPerWake)
+    let f := finishBatch b.1 b.2.1 b.2.2
+    if segs.length ≤ maxSegmentsPerWake then f
+    else
+      let r := handleSegmentsLoop fuel f.1 (segs.drop maxSegmentsPerWake)
+      (r.1, f.2 ++ r.2)
+
+/-- `handleSegments` on a queue of segments -/
+def handleSegments (e : Ep) (segs : List InSeg) : Ep × List OutSeg := handleSegmentsLoop (segs.length + 1) e segs
 
 /-- one segment through `handleSegments` (the harness delivers one at a time to a running loop) -/
 def handleSegment (e : Ep) (seg : InSeg) : Ep × List OutSeg := handleSegments e [seg]
@@ -503,6 +521,10 @@ def appWrite (e : Ep) (data : List Nat) : Ep × Except String Nat × List OutSeg
 def zeroReceiveWindow (e : Ep) (used : Nat) : Bool :=
   if used ≥ e.rcvBufSize then true else ((e.rcvBufSize - used) >>> e.rcv.rcvWndScale) == 0
 
+/-- the first receive-list entry is handed to the application -/
+def popRead (e : Ep) (v : List Nat) (rest : List (List Nat)) : Ep :=
+  { e with rcvList := rest, rcvBufUsed := e.rcvBufUsed - v.length }
+
 /-- `Read` -/
 def appRead (e : Ep) : Ep × Except String (List Nat) × List OutSeg :=
   if e.state != .connected && e.state != .closed && e.rcvBufUsed == 0 then
@@ -513,14 +535,12 @@ def appRead (e : Ep) : Ep × Except String (List Nat) × List OutSeg :=
     match e.rcvList with
     | [] => (e, .error "operation-would-block", [])
     | v :: rest =>
-      let wasZero := zeroReceiveWindow e e.rcvBufUsed
-      let e := { e with rcvList := rest, rcvBufUsed := e.rcvBufUsed - v.length }
-      let nowZero := zeroReceiveWindow e e.rcvBufUsed
+      let e1 := popRead e v rest
       -- notifyNonZeroReceiveWindow → rcv.nonZeroWindow()
-      if wasZero && !nowZero && !e.done then
-        if (sizeS e.rcv.rcvNxt e.rcv.rcvAcc) >>> e.rcv.rcvWndScale != 0 then (e, .ok v, [])
-        else let (e, o) := sendAck e; (e, .ok v, [o])
-      else (e, .ok v, [])
+      if zeroReceiveWindow e e.rcvBufUsed && !zeroReceiveWindow e1 e1.rcvBufUsed && !e1.done then
+        if (sizeS e1.rcv.rcvNxt e1.rcv.rcvAcc) >>> e1.rcv.rcvWndScale != 0 then (e1, .ok v, [])
+        else let a := sendAck e1; (a.1, .ok v, [a.2])
+      else (e1, .ok v, [])
 
 /-- `Shutdown(write)`: the FIN is queued behind all data as an entry without payload -/
 def queueFin (e : Ep) : Ep :=
